@@ -271,17 +271,30 @@ def gen_optimize(src: Path, out: list[str]):
                 return v.attr, v.value.id
         return None
 
+    try:
+        env = const_env(tree)
+    except Unsupported:
+        env = {}
+
+    def lit(e):
+        """a string literal, or the name of a module-level constant holding one"""
+        if isinstance(e, ast.Constant) and isinstance(e.value, str):
+            return e.value
+        if isinstance(e, ast.Name) and isinstance(env.get(e.id), str):
+            return env[e.id]
+        return None
+
     tests, updates, recursions = [], [], 0
     for n in ast.walk(tree):
         if isinstance(n, ast.BoolOp) and isinstance(n.op, ast.And) and len(n.values) == 3:
             cs = n.values
-            if all(isinstance(c, ast.Compare) and len(c.ops) == 1 and len(c.comparators) == 1 and isinstance(c.comparators[0], ast.Constant)
-                   and isinstance(c.comparators[0].value, str) and name_of(c.left) for c in cs):
+            if all(isinstance(c, ast.Compare) and len(c.ops) == 1 and len(c.comparators) == 1 and lit(c.comparators[0]) is not None
+                   and name_of(c.left) for c in cs):
                 (k0, x0), (k1, x1), (k2, x2) = (name_of(c.left) for c in cs)
                 ops = [type(c.ops[0]) for c in cs]
-                if k0 == "" and k1 and k2 and k1 != k2 and x0 == x1 == x2 and ops == [ast.Eq, ast.NotEq, ast.Eq] \
-                        and cs[1].comparators[0].value == cs[2].comparators[0].value:
-                    tests.append((cs[0].comparators[0].value, cs[1].comparators[0].value, k1, k2, x0))
+                vals = [lit(c.comparators[0]) for c in cs]
+                if k0 == "" and k1 and k2 and k1 != k2 and x0 == x1 == x2 and ops == [ast.Eq, ast.NotEq, ast.Eq] and vals[1] == vals[2]:
+                    tests.append((vals[0], vals[1], k1, k2, x0))
         if isinstance(n, ast.Call) and isinstance(n.func, ast.Attribute) and n.func.attr == "update" and not n.args and len(n.keywords) == 2:
             kw = {k.arg: k.value for k in n.keywords}
             if all(isinstance(v, ast.Attribute) and isinstance(v.value, ast.Name) for v in kw.values()):
